@@ -74,5 +74,6 @@ Spec == Init /\ [][Next]_i
 
 FieldsOK == i = 0 => \A k \in 1..Len(Fields) : WellFormed(Fields[k])
 ClaimsOK == i = 0 => \A k \in 1..Len(Claims) : ClaimOK(Claims[k])
-RowsOK   == i > 0 => RowOK(Rows[i])
+\* an exception where a value is specified is a rejected row (exc is "" when none was raised)
+RowsOK   == i > 0 => (Rows[i].exc = "" /\ RowOK(Rows[i]))
 =============================================================================
